@@ -876,7 +876,14 @@ def run_job(job, seed, tier, rec, known):
         rec.extra["writable_types"] = len(got)
         rec.note_enum(1, 0)
         if got != sorted(cdm.WRITABLE_TYPES):
-            raise core.HarnessError("writable chart types changed: %r" % sorted(set(got) ^ set(cdm.WRITABLE_TYPES)))
+            # a chart type that stopped (or started) being writable on the tree under test: the property quantifies
+            # over the 29 writable types, so a missing one is a violation rather than a fault of this harness
+            lostt = sorted(set(cdm.WRITABLE_TYPES) - set(got))
+            if lostt:
+                return [{"key": "C07:chart-type-no-longer-writable", "case": ["types", lostt],
+                         "message": "add_chart no longer accepts chart type(s) %r" % (lostt,)}]
+            raise core.HarnessError("chart types became writable that the model does not know: %r"
+                                    % sorted(set(got) - set(cdm.WRITABLE_TYPES)))
         cc = corpus_charts()
         rec.extra["corpus_charts"] = len(cc)
         rec.extra["corpus_charts_skipped"] = sum(1 for c in cc if c[3] in (None, "mixed") or not c[4]
@@ -897,6 +904,10 @@ def run_job(job, seed, tier, rec, known):
 
 
 def replay(case):
+    if isinstance(case, list) and case and case[0] == "types":
+        lostt = sorted(set(cdm.WRITABLE_TYPES) - set(cdm.probe_writable_types()))
+        return [{"key": "C07:chart-type-no-longer-writable", "case": ["types", lostt],
+                 "message": "add_chart no longer accepts chart type(s) %r" % (lostt,)}] if lostt else []
     r = Reporter(collect=True)
     try:
         execute(case, r)
